@@ -5,6 +5,7 @@ _C27_NOEOF = ["keccak256 -> digest_stub", "decode -> eof_decode_must_not_be_call
 # assertions, pointer/overflow checks, unwinding assertions and cover witnesses are unaffected by this flag.
 _C27_NOREACH = ["-Z", "unstable-options", "--no-assertion-reach-checks"]
 
+import jobs_c27 as _jobs_c27
 PROPS["C27"] = dict(
     functions=[
         "revm_primitives::Bytecode::{new_legacy, new_raw, new_raw_checked, new_eip7702, original_bytes, original_byte_slice, "
@@ -14,6 +15,7 @@ PROPS["C27"] = dict(
         "revm_interpreter::analysis::{to_analysed, analyze} (crates/interpreter/src/interpreter/analysis.rs), including the bitvec "
         "jump-table construction and set_unchecked with all pointer checks on",
         "revm_primitives::Eof::decode (real code) only on EF00-prefixed strings of 2..=8 bytes (always an error there)",
+        "MIR of Bytecode::{original_bytes, original_byte_slice, len, is_empty, hash_slow} and LegacyAnalyzedBytecode::{original_bytes, original_byte_slice}: every path, all four variants (provenance flow)",
     ],
     bounds="code length concrete per harness, contents fully symbolic: legacy code and new_raw_checked/new_raw classification for every "
            "length 0..=8; jump analysis (to_analysed) for every length 0..=8; EF00-prefixed strings of length 2..=8; EF01-prefixed "
@@ -37,6 +39,7 @@ PROPS["C27"] = dict(
         "--no-assertion-reach-checks (Kani's UNREACHABLE diagnostics off; vacuity is guarded by the cover witnesses and the twin)",
         "Kani 0.68 / CBMC 6.11 / CaDiCaL / Kissat and the rustc MIR -> goto translation are trusted",
     ],
+    jobs=[dict(name="e3::bytecode_accessor_coherence", fn=_jobs_c27.run_accessor_coherence)],
     harnesses=(
         [H("c27::c27_legacy_%d" % n, tier="quick", timeout=300, mem_gb=4, bounds="all codes of %d bytes (heap-backed Bytes)" % n,
            stubs_expected=_C27_KECCAK) for n in range(9)]
@@ -74,8 +77,11 @@ CLAIMS["C27"] = dict(
          "classifies every such string as the reference does (EF00 -> EOF decode error below 20 bytes, EF01 -> EIP-7702 length "
          "error, otherwise legacy). For every address, the EIP-7702 designator is ef0100 || address, decodes back to that address, "
          "every accepted 23-byte string re-encodes to itself, and other lengths / magic / version are rejected with the matching error.",
-    note="Bounded in the code length (<= 8 bytes for legacy code; EOF containers are not covered). keccak256 is stubbed by an "
+    note="Bounded in the code length (<= 8 bytes for legacy code, plus 1-2 bytes followed by 32..34 zero bytes); EOF containers are covered only by the accessor-coherence job (all variants, any length), not by a harness. keccak256 is stubbed by an "
          "injective length-and-position digest; keccak, the bytes crate, Kani/CBMC/Kissat are trusted.",
-    technique="Kani/CBMC bounded model checking of the real functions, one harness per concrete length with symbolic contents",
+    technique="Kani/CBMC bounded model checking of the real functions, one harness per concrete length with symbolic contents; MIR provenance-flow symbolic execution + SMT (z3+cvc5) for the coherence of the accessors over all four variants",
+    engine="kani-cbmc + smt-mir",
     design_ref="DESIGN.md §5 C27",
 )
+
+SMT_SERVES.add("C27")
